@@ -11,3 +11,13 @@ import flamapy.metamodels.fm_metamodel as _pkg  # noqa: E402
 _where = list(getattr(_pkg, '__path__', []))
 if not any(p.startswith(REPO + '/') for p in _where):
     raise ImportError(f'flamapy.metamodels.fm_metamodel resolves to {_where}, expected a path under {REPO}')
+
+# every temporary file of a stand-in run lives in one directory that is removed when the process exits
+import atexit  # noqa: E402
+import shutil  # noqa: E402
+import tempfile  # noqa: E402
+
+_TMP_ROOT = tempfile.mkdtemp(prefix='verif_standin_')
+tempfile.tempdir = _TMP_ROOT
+os.environ['TMPDIR'] = _TMP_ROOT          # child processes (hash-seed / locale sampling) create their files below it too
+atexit.register(shutil.rmtree, _TMP_ROOT, ignore_errors=True)
